@@ -161,7 +161,7 @@ MCInit == Init /\ dp = None /\ its = <<>>
 
 Trailer == <<165, 90, 165, 90>>
 
-MCEncode == /\ msg = None /\ store = <<>>
+MCEncode == /\ msg = None /\ store = <<>> /\ box = None
             /\ \E p \in Universe : Encode(MsgFor(p))
             /\ UNCHANGED <<dp, its>>
 
